@@ -750,7 +750,9 @@ func (g *gcHist) commitT(t int) {
 		// the scan's 'newer file' / 'larger offset' / 'value now inline' branches)
 		// (not inside a rewrite: a re-write between scan and write-back is finding F27,
 		// exercised by its witness only)
-		if !(g.sameTs && !g.inGC && g.c.Rng.Intn(6) == 0) {
+		// (and not while another transaction is open: it may read at this timestamp, and
+		// committing at or below an open reader's timestamp is outside the managed-mode contract)
+		if !(g.sameTs && !g.inGC && len(g.txns) == 1 && g.c.Rng.Intn(4) == 0) {
 			g.mts++
 		}
 		at = g.mts
